@@ -137,7 +137,7 @@ theorem recLen_eq {n : Nat} {r : Record} (h : WF n r) (bin : Nat) :
 
 theorem recLen_lt {n : Nat} {r : Record} (h : WF n r) : recLen r (encAuxAll r.aux) < 2147483648 := by
   have := h.size_ok
-  rw [recLen, encAuxAll_length]; omega
+  rw [recLen, encAuxAll_length _ h.aux_ok]; omega
 
 /-- length-prefix lemma: a frame `size ++ body` in front of any `rest` is split off exactly -/
 theorem readRecord_frame (om : Omit) (n : Nat) (body rest : List Byte) (hpos : 0 < body.length)
